@@ -306,6 +306,8 @@ where
     L: Flat + Length,
 {
     unsafe fn validate_unchecked(bytes: &[u8]) -> Result<(), Error> {
+        // Walk exactly the bytes the view made by `ptr_from_bytes` covers.
+        let bytes = unsafe { bytes.get_unchecked(..floor_mul(bytes.len(), Self::ALIGN)) };
         for item_bytes in DataIter::<'_, T, L, _>::new(bytes) {
             T::validate(item_bytes?)?;
         }
